@@ -119,6 +119,10 @@ func init() {
 		checkPegCombinators(r, prog, "c15")   // precedence and grouping are what the table says only if the engine reads it as PEG
 		r.importing = "C07"
 		checkSelectorGrammar(r, ga, "c07") // a selector's parts are the text that was written (no numeric or case normalisation)
+		r.importing = "C01"
+		checkBindingModes(r, prog, ga, "c01") // the tree read back has the names of `as …` where the tree printed had them
+		r.importing = "C10"
+		checkRecoverDiscipline(r, prog, "c10") // a literal the grammar refuses (a bad escape) is refused, not read back as something else
 		if a16 := FindAnchors(prog); len(a16.Missing) == 0 {
 			r.importing = "C10"
 			checkCreateEvaluator(r, prog, a16, ga, "c10") // what is evaluated is the parse of exactly the text given, every time
@@ -246,6 +250,12 @@ func checkAnchoring(r *Run, ga *GA) {
 					k++
 					r.Check("c15.entry-is-first-rule", fmt.Sprintf("%s:rules[const]#%d", fn.Name(), k), ga.prog.pos(ia.Pos()), c.Value.ExactString() == "0",
 						fn.Name()+" takes rule number "+c.Value.ExactString()+" of the table by constant: the default entry point is the first rule, g.rules[0]")
+					// … and where it stands under a condition (the Entrypoint option: "" means the first rule), the condition is
+					// about the name that was asked for, not about what the parser held before
+					if cond, why := defaultEntryCondition(fn, ia.Block()); cond {
+						r.Check("c15.entry-is-first-rule", fmt.Sprintf("%s:rules[const]#%d:condition", fn.Name(), k), ga.prog.pos(ia.Pos()), why == "",
+							fn.Name()+" falls back to the first rule on a condition that is not a test of the name it was given: "+why+" (Entrypoint(\"\") must select the first rule whatever the parser held before)")
+					}
 				}
 			}
 		}
@@ -1539,6 +1549,7 @@ func checkWhitespaceRule(r *Run, ga *GA) {
 	}
 	r.Check("c16.layout-rule", "rule:"+best, ga.prog.pos(ga.tab.RulePos[rule]), ok, fmt.Sprintf("the layout rule %s (used optionally %d times) matches %s, expected a repetition of whitespace characters only", best, bn, cs))
 	checkBracketLayout(r, ga, best)
+	checkPunctuationLayout(r, ga, best)
 	// every other place that tests for "whitespace" uses the same set (a terminator that forgets a whitespace
 	// character would make one layout of the same expression parse differently)
 	for _, rl := range ga.order {
@@ -1878,4 +1889,77 @@ func stringLiteralActionOnPaths(prog *Program, name string) (bool, string) {
 		}
 	}
 	return n > 0, ""
+}
+
+// defaultEntryCondition: the block lies under a two-way branch (its nearest strict dominator that ends in an If); the
+// branch condition, when it compares something with the empty string (or a length with 0), compares a string the
+// function was given (a parameter or a captured variable), not one loaded from a structure.
+func defaultEntryCondition(fn *ssa.Function, b *ssa.BasicBlock) (conditional bool, why string) {
+	var ifi *ssa.If
+	for d := b.Idom(); d != nil; d = d.Idom() {
+		if len(d.Instrs) > 0 {
+			if x, ok := d.Instrs[len(d.Instrs)-1].(*ssa.If); ok {
+				ifi = x
+				break
+			}
+		}
+	}
+	if ifi == nil {
+		return false, ""
+	}
+	bo, ok := ifi.Cond.(*ssa.BinOp)
+	if !ok || (bo.Op != token.EQL && bo.Op != token.NEQ) {
+		return true, ""
+	}
+	var given func(v ssa.Value, depth int) (bool, string)
+	given = func(v ssa.Value, depth int) (bool, string) {
+		if depth > 6 {
+			return false, "too deep"
+		}
+		switch x := v.(type) {
+		case *ssa.Parameter, *ssa.FreeVar:
+			return true, ""
+		case *ssa.UnOp:
+			if x.Op == token.MUL {
+				switch a := x.X.(type) {
+				case *ssa.FreeVar, *ssa.Alloc:
+					_ = a
+					return true, "" // a captured variable, or a local (decided where it is assigned)
+				case *ssa.FieldAddr:
+					return false, "it tests the field " + fieldName(a.X.Type(), a.Field) + " of " + a.X.Name()
+				}
+			}
+		case *ssa.Call:
+			if bi, isB := x.Call.Value.(*ssa.Builtin); isB && bi.Name() == "len" && len(x.Call.Args) == 1 {
+				return given(x.Call.Args[0], depth+1)
+			}
+		case *ssa.Phi:
+			for _, e := range x.Edges {
+				if ok, w := given(e, depth+1); !ok {
+					return false, w
+				}
+			}
+			return true, ""
+		case *ssa.Field:
+			return false, "it tests a field of " + x.X.Name()
+		}
+		return true, "" // not a shape this rule speaks about
+	}
+	for _, side := range []ssa.Value{bo.X, bo.Y} {
+		if _, isC := side.(*ssa.Const); isC {
+			continue
+		}
+		if !isStringOrInt(side.Type()) {
+			continue
+		}
+		if ok, w := given(side, 0); !ok {
+			return true, w
+		}
+	}
+	return true, ""
+}
+
+func isStringOrInt(t types.Type) bool {
+	b, ok := t.Underlying().(*types.Basic)
+	return ok && b.Info()&(types.IsString|types.IsInteger) != 0
 }
